@@ -333,6 +333,10 @@ class ServerProcess:
     # ---- life cycle ------------------------------------------------------------------
     def argv(self) -> typing.List[str]:
         cmd = [PYTHON, ENTRY, self.conf_path]
+        if getattr(self, "launcher_code", None):
+            # a tiny launcher (what a set-uid wrapper or service manager does before exec): runs inside the traced
+            # process, then replaces itself by the server
+            cmd = [PYTHON, "-c", self.launcher_code + "\nimport os, sys\nos.execv(sys.argv[1], sys.argv[1:])", PYTHON, ENTRY, self.conf_path]
         if self.strace_path:
             st = find_strace()
             if not st:
